@@ -23,9 +23,9 @@ func init() {
 	core.Register(&core.Prop{
 		ID:    "C20",
 		Level: "fault_enumeration",
-		Rule: "one case = one generated document (write program as in C02 restricted as the quantifier says: unencrypted, no object streams, strings without EOL bytes, stream bodies in which no line starts with a digit or with xref/trailer/startxref/%%EOF (EOLs and line-initial endstream/endobj are allowed); all sink kinds, versions, output modes); " +
+		Rule: "one case = one generated document (write program as in C02 restricted as the quantifier says: unencrypted, no object streams, strings without EOL bytes, stream bodies in which no line starts with a digit (EOLs and line-initial endstream/endobj/xref/trailer/startxref/%%EOF are allowed); all sink kinds, versions, output modes; one document in five has long streams and is cut around object boundaries and on a coarse grid only); " +
 			"for that document EVERY prefix length 0..len is enumerated as a crash point, plus 9 xref damage variants (xref section / startxref value / everything from the xref on, overwritten with spaces, 'X' or NUL). " +
-			"True object extents come from the independent strict parser. Non-trivial = at least 3 objects and 100 crash points; distinct = hash of (configuration, operation kinds, image length). Crash points are reported under logical_steps.",
+			"True object extents come from the independent strict parser; complete objects are read through FileInfo.Read and, on a sample of the crash points and for all damage variants, through the Reader that MakeReader builds. Non-trivial = at least 3 objects and 100 crash points; distinct = hash of (configuration, operation kinds, image length). Crash points are reported under logical_steps.",
 		Assumptions: []string{
 			"object extents [start,end) are taken from strictpdf run on the intact image (independent of the library)",
 			"a stream whose /Length cannot be resolved in the prefix (indirect length object cut off) is compared byte-wise only if its raw data does not end in CR/LF and does not contain EOL+endstream (otherwise the extent is inherently ambiguous); it must still be listed and not broken",
